@@ -67,6 +67,9 @@ class Recorder:
         self.notes = []
         self.t0 = time.time()
         self.extra = {}
+        self.classifier = None
+        self._kept = {}
+        self.key_counts = Counter()
 
     # ---- observation
     def ev(self, n=1):
@@ -85,8 +88,18 @@ class Recorder:
     def violation(self, witness):
         """witness: dict with at least 'case' (re-runnable) and 'what'."""
         self.n_violations += 1
-        if len(self.violations) < MAX_WITNESSES:
-            w = jsonable(witness)
+        w = jsonable(witness)
+        key = None
+        if self.classifier is not None:
+            try:
+                key = self.classifier(w)
+            except Exception:
+                key = None
+        # bounded per mechanism, so that a frequent known finding cannot crowd out anything else
+        self.key_counts[str(key)] += 1
+        n = self._kept.get(key, 0)
+        if n < (MAX_WITNESSES if key is None else 5):
+            self._kept[key] = n + 1
             w.setdefault("shard", self.shard)
             self.violations.append(w)
 
@@ -100,8 +113,10 @@ class Recorder:
 
     # ---- transport
     def dump(self, path):
+        d = dict(self.__dict__)
+        d["classifier"] = None
         with open(path, "wb") as f:
-            pickle.dump(self.__dict__, f)
+            pickle.dump(d, f)
 
     @classmethod
     def load(cls, path):
@@ -119,6 +134,7 @@ class Recorder:
             if len(self.samples) < MAX_SAMPLES * 2:
                 self.samples.append(s)
         self.n_violations += other.n_violations
+        self.key_counts.update(getattr(other, "key_counts", {}))
         self.violations.extend(other.violations)
         for r in other.inconclusive:
             self.inconc(r)
